@@ -183,8 +183,10 @@ theorem fixPart3_setAddress (ss : List Stmt) (i : Nat) (s : Stmt) (v : Value) :
       | none => rfl
       | some start =>
         dsimp only
-        generalize numericOfInt _ _ _ = x
-        cases x <;> rfl
+        split
+        · rfl
+        · generalize numericOfInt _ _ _ = x
+          cases x <;> rfl
     | diag => rfl
     | internal => cases addrIntOf ss i <;> rfl
     | diverged => cases addrIntOf ss i <;> rfl
